@@ -127,6 +127,12 @@ prop("C04", True, "model_checking",
      "Trusted: the public parse_* functions as acceptance oracle; two recorded findings (values beyond the decoder's own limits).",
      "DESIGN.md 3/C04", E1)
 
+prop("C03", True, "model_checking",
+     "exhaustive enumeration of single, paired (and tripled) field edits over a map pool; encode -> decode -> field-by-field comparison",
+     "Every edit of the alphabet (text fields x 25 hostile strings, file names, boundary numbers, flags, mode, countdown, bookmarks, colours, breaks) and every pair of edits on distinct fields is applied to every map of the pool; the edited map is encoded, decoded and compared with C02's field list.",
+     "Trusted: only representable values are in the menus; data derived from an edited field (combo flags from breaks, velocity from the slider multiplier, mode-dependent data) is excluded for that edit.",
+     "DESIGN.md 3/C03", E1)
+
 NOT_BUILT_REASON = "check not built yet in this session (planned, see DESIGN.md section 3); not claimed until it exists"
 
 def main():
